@@ -118,8 +118,11 @@ def _run_variant(args):
     if overlay is None:
         return variant['id'], 'stale', {}
     res = {}
+    from .__main__ import parse_tree, clear_caches
+    clear_caches()
+    rp = parse_tree(overlay=overlay)
     for p in props:
-        ck = run_check(p, 'quick', overlay=overlay, write=False, quiet=True)
+        ck = run_check(p, 'quick', write=False, quiet=True, repo=rp)
         res[p] = {
             'status': ck.status,
             'error': ck.error,
@@ -147,8 +150,10 @@ def run_catalogue(props, jobs=16, only=None):
     allp = set(props)
     for v in cat:
         allp |= set(v.get('also', []))
+    from .__main__ import parse_tree
+    r0 = parse_tree()
     for p in sorted(allp):
-        ck = run_check(p, 'quick', write=False, quiet=True)
+        ck = run_check(p, 'quick', write=False, quiet=True, repo=r0)
         base[p] = {'status': ck.status, 'error': ck.error,
                    'keys': {'%s|%s|%s' % (v.rule, v.function, v.construct)
                             for v in ck.violations}}
